@@ -42,6 +42,8 @@ type op struct {
 	V     string
 	Es    []elem
 	Colon bool
+	X     string // subscript as written when it is an arithmetic expression over i, j, k ("" = the literal K)
+	Pre   string // statements that set index variables, run before the operation
 }
 
 type opJSON struct {
@@ -62,7 +64,19 @@ func (o op) json() opJSON {
 
 func sq(s string) string { return "'" + s + "'" } // values never contain a single quote
 
+func (o op) sub() string {
+	if o.X != "" {
+		return o.X
+	}
+	return strconv.Itoa(o.K)
+}
+
 func (o op) stmt(nm string) string {
+	if o.Pre != "" {
+		p := o
+		p.Pre = ""
+		return o.Pre + "; " + p.stmt(nm)
+	}
 	es := func() string {
 		var parts []string
 		for _, e := range o.Es {
@@ -76,11 +90,11 @@ func (o op) stmt(nm string) string {
 	}
 	switch o.Kind {
 	case "setelem":
-		return fmt.Sprintf("%s[%d]=%s", nm, o.K, sq(o.V))
+		return fmt.Sprintf("%s[%s]=%s", nm, o.sub(), sq(o.V))
 	case "appelem":
-		return fmt.Sprintf("%s[%d]+=%s", nm, o.K, sq(o.V))
+		return fmt.Sprintf("%s[%s]+=%s", nm, o.sub(), sq(o.V))
 	case "unsetelem":
-		return fmt.Sprintf("unset '%s[%d]'", nm, o.K)
+		return fmt.Sprintf("unset '%s[%s]'", nm, o.sub())
 	case "assignarr":
 		return fmt.Sprintf("%s=(%s)", nm, es())
 	case "appendarr":
@@ -308,6 +322,99 @@ func genElems(r *rand.Rand, cur ref, allowBad bool) []elem {
 		}
 	}
 	return es
+}
+
+// ---- subscripts with side effects: arithmetic expressions over the index variables i, j, k.
+// bash evaluates the subscript of a[..]=v, a[..]+=v, unset 'a[..]' and ${a[..]} exactly once.
+
+type ivars [3]int
+
+var ivNames = [3]string{"i", "j", "k"}
+
+const ivInit = "i=0; j=2; k=5"
+
+func ivStart() ivars { return ivars{0, 2, 5} }
+
+func (iv ivars) String() string { return fmt.Sprintf("%d,%d,%d", iv[0], iv[1], iv[2]) }
+
+// genIdxExpr returns an expression, its value, and the variables after evaluating it once.
+func genIdxExpr(r *rand.Rand, iv ivars) (string, int, ivars) {
+	x := r.IntN(3)
+	n := ivNames[x]
+	v := iv[x]
+	switch r.IntN(11) {
+	case 0, 1:
+		iv[x] = v + 1
+		return n + "++", v, iv
+	case 2:
+		iv[x] = v + 1
+		return "++" + n, v + 1, iv
+	case 3:
+		iv[x] = v - 1
+		return n + "--", v, iv
+	case 4:
+		iv[x] = v - 1
+		return "--" + n, v - 1, iv
+	case 5:
+		iv[x] = v + 2
+		return n + "+=2", v + 2, iv
+	case 6:
+		iv[x] = v - 3
+		return n + "-=3", v - 3, iv
+	case 7:
+		iv[x] = v + 1
+		return n + "=" + n + "+1", v + 1, iv
+	case 8:
+		y := r.IntN(3)
+		iv[x] = iv[y] + 1
+		return n + "=" + ivNames[y] + "+1", iv[x], iv
+	case 9:
+		return n, v, iv
+	default:
+		return n + "+1", v + 1, iv
+	}
+}
+
+// withExpr rewrites the subscript of an element operation as a side-effecting expression (sometimes after
+// moving an index variable), when the expression's value is usable: any value when errors are allowed,
+// otherwise a non-negative one up to 40 or a negative one inside the array.
+func withExpr(r *rand.Rand, o op, cur ref, iv *ivars, allowBad bool) op {
+	switch o.Kind {
+	case "setelem", "appelem":
+	case "unsetelem":
+		if cur.kind != 2 {
+			return o // on a scalar the subscript is compared as text, on an unset name it is not evaluated
+		}
+	default:
+		return o
+	}
+	if r.IntN(5) < 2 {
+		return o
+	}
+	mx := maxKey(cur.base())
+	for try := 0; try < 4; try++ {
+		w := *iv
+		pre := ""
+		if r.IntN(3) == 0 {
+			x := r.IntN(3)
+			w[x] = r.IntN(mx+4) - 1
+			if r.IntN(4) == 0 {
+				w[x] = -1 - r.IntN(3)
+			}
+			pre = fmt.Sprintf("%s=%d", ivNames[x], w[x])
+		}
+		e, v, w2 := genIdxExpr(r, w)
+		ok := v >= -45 && v <= 45
+		if !allowBad {
+			ok = (v >= 0 && v <= 40) || (v < 0 && v+mx+1 >= 0)
+		}
+		if ok {
+			o.K, o.X, o.Pre = v, e, pre
+			*iv = w2
+			return o
+		}
+	}
+	return o
 }
 
 func genOp(r *rand.Rand, cur ref, allowBad bool) op {
@@ -608,6 +715,26 @@ type stepJSON struct {
 	Len   int       `json:"len"`
 	Sl2   fieldsRes `json:"sl2"`
 	Sl1   fieldsRes `json:"sl1"`
+	RX    string    `json:"rx,omitempty"` // the read's subscript when it is an expression (run in the runner)
+	IvOK  bool      `json:"ivok"`         // the index variables are what one evaluation of each subscript leaves
+	IvGot string    `json:"ivgot"`
+	IvExp string    `json:"ivexp"`
+}
+
+// runStmts runs every statement of src in the runner; panicked / error.
+func runStmts(run *interp.Runner, src string) (bool, error) {
+	f := parse(src + "\n")
+	var err error
+	p, _ := hx.Try(func() {
+		ctx, cancel := context.WithTimeout(context.Background(), 5*time.Second)
+		defer cancel()
+		for _, st := range f.Stmts {
+			if e := run.Run(ctx, st); e != nil && err == nil {
+				err = e
+			}
+		}
+	})
+	return p, err
 }
 
 func modeHist(o hx.Opts) {
@@ -619,17 +746,20 @@ func modeHist(o hx.Opts) {
 		cur := ref{m: map[int]string{}}
 		var steps []stepJSON
 		dead := false
+		iv := ivStart()
+		runStmts(run, ivInit)
 		for j := 0; j < n && !dead; j++ {
-			op := genOp(r, cur, true)
+			op := withExpr(r, genOp(r, cur, true), cur, &iv, true)
 			st := stepJSON{Op: op.json(), Stmt: op.stmt("a")}
-			f := parse(st.Stmt + "\n")
 			out.Reset()
-			var err error
-			p, _ := hx.Try(func() {
-				ctx, cancel := context.WithTimeout(context.Background(), 5*time.Second)
-				defer cancel()
-				err = run.Run(ctx, f.Stmts[0])
-			})
+			// the statements that move an index variable are not part of the operation's error flag
+			if op.Pre != "" {
+				runStmts(run, op.Pre)
+				out.Reset()
+			}
+			bare := op
+			bare.Pre = ""
+			p, err := runStmts(run, bare.stmt("a"))
 			if p {
 				st.P = true
 				dead = true
@@ -641,7 +771,26 @@ func modeHist(o hx.Opts) {
 			st.Var = dumpVar(vr)
 			cur, _ = cur.apply(op)
 			st.RK = genIndex(r, cur, true)
-			st.Read = expandWord(vr, fmt.Sprintf("\"${a[%d]}\"", st.RK))
+			if cur.kind == 2 && r.IntN(3) == 0 {
+				// a read with a side-effecting subscript, through the runner
+				e, v, w := genIdxExpr(r, iv)
+				st.RK, st.RX, iv = v, e, w
+				out.Reset()
+				pp, rerr := runStmts(run, fmt.Sprintf("rd=\"${a[%s]}\"", e))
+				switch {
+				case pp:
+					st.Read = fieldsRes{P: true, F: []string{}}
+				case rerr != nil || out.Len() > 0:
+					st.Read = fieldsRes{Err: "error", F: []string{}}
+				default:
+					st.Read = fieldsRes{F: []string{hx.Hex(run.Vars["rd"].Str)}}
+				}
+			} else {
+				st.Read = expandWord(vr, fmt.Sprintf("\"${a[%d]}\"", st.RK))
+			}
+			st.IvGot = run.Vars["i"].Str + "," + run.Vars["j"].Str + "," + run.Vars["k"].Str
+			st.IvExp = iv.String()
+			st.IvOK = st.IvGot == st.IvExp
 			if vr.Kind == expand.Indexed {
 				st.Keys = expandWord(vr, "\"${!a[@]}\"")
 				st.Count = expandWord(vr, "${#a[@]}")
@@ -662,7 +811,7 @@ func modeHist(o hx.Opts) {
 
 // show renders the observation statement for array nm given what the reference predicts,
 // and the output bash must print for it.
-func show(r *rand.Rand, nm string, cur ref) (stmt, want string) {
+func show(r *rand.Rand, nm string, cur ref, iv *ivars) (stmt, want string) {
 	var sb, wb strings.Builder
 	m := cur.base()
 	ks := keysOf(m)
@@ -704,7 +853,18 @@ func show(r *rand.Rand, nm string, cur ref) (stmt, want string) {
 		if cur.kind == 2 && mx >= 0 && r.IntN(2) == 0 {
 			k = -1 - r.IntN(mx+1)
 		}
-		fmt.Fprintf(&sb, "printf '<%%s>' \"${%s[%d]}\"; ", nm, k)
+		sub := strconv.Itoa(k)
+		if cur.kind == 2 && r.IntN(3) == 0 {
+			// a read whose subscript has a side effect; usable values only (see withExpr)
+			for try := 0; try < 4; try++ {
+				e, v, w := genIdxExpr(r, *iv)
+				if (v >= 0 && v <= 40) || (v < 0 && v+mx+1 >= 0) {
+					sub, k, *iv = e, v, w
+					break
+				}
+			}
+		}
+		fmt.Fprintf(&sb, "printf '<%%s>' \"${%s[%s]}\"; ", nm, sub)
 		kk, _ := resolve(m, k)
 		wr([]string{m[kk]})
 	}
@@ -743,8 +903,9 @@ func show(r *rand.Rand, nm string, cur ref) (stmt, want string) {
 		wb.WriteString("|")
 		wr(valsOf(sel))
 	}
-	sb.WriteString("echo")
-	wb.WriteString("\n")
+	// the index variables, after all the subscripts evaluated so far
+	sb.WriteString("printf '|%s,%s,%s' \"$i\" \"$j\" \"$k\"; echo")
+	wb.WriteString("|" + iv.String() + "\n")
 	return sb.String(), wb.String()
 }
 
@@ -763,6 +924,8 @@ func genShell(r *rand.Rand, ctx string) shellCase {
 	cur := ref{m: map[int]string{}}
 	other := ref{m: map[int]string{}}
 	nops := 0
+	iv := ivStart() // the index variables of the current shell (a subshell works on a copy)
+	src.WriteString(ivInit + "\n")
 	emitOps := func(nm string, st *ref, n int, indent string) {
 		for j := 0; j < n; j++ {
 			var o op
@@ -775,18 +938,19 @@ func genShell(r *rand.Rand, ctx string) shellCase {
 				}
 			}
 			// "${s[k]=v}" with k<0 on a scalar/unset name: not sampled (bash itself is erratic there)
+			o = withExpr(r, o, *st, &iv, false)
 			*st, _ = st.apply(o)
 			src.WriteString(indent + o.stmt(nm) + "\n")
 			nops++
 			if r.IntN(3) == 0 {
-				s, w := show(r, nm, *st)
+				s, w := show(r, nm, *st, &iv)
 				src.WriteString(indent + s + "\n")
 				want.WriteString(w)
 			}
 		}
 	}
 	showNow := func(nm string, st ref, indent string) {
-		s, w := show(r, nm, st)
+		s, w := show(r, nm, st, &iv)
 		src.WriteString(indent + s + "\n")
 		want.WriteString(w)
 	}
@@ -819,10 +983,12 @@ func genShell(r *rand.Rand, ctx string) shellCase {
 		pre := r.IntN(n + 1)
 		emitOps("a", &cur, pre, "")
 		sub := cur.clone()
+		ivParent := iv
 		src.WriteString("(\n")
 		emitOps("a", &sub, n-pre, "  ")
 		showNow("a", sub, "  ")
 		src.WriteString(")\n")
+		iv = ivParent // what the subshell did to i, j, k stays there
 		showNow("a", cur, "") // the parent is unchanged
 		emitOps("a", &cur, r.IntN(4), "")
 		showNow("a", cur, "")
@@ -834,8 +1000,10 @@ func genShell(r *rand.Rand, ctx string) shellCase {
 		var keep strings.Builder
 		keep.WriteString(want.String())
 		want.Reset()
+		ivParent := iv
 		emitOps("a", &sub, n-pre, "  ")
 		showNow("a", sub, "  ")
+		iv = ivParent
 		inner := want.String()
 		want.Reset()
 		want.WriteString(keep.String())
